@@ -762,6 +762,30 @@ func NewEmitter() *Emitter {
 	return &Emitter{defined: map[int]bool{}, vars: map[string]uint8{}}
 }
 
+// DeclareVars appends declarations for the not yet declared variables of t.
+func (e *Emitter) DeclareVars(sb *strings.Builder, t *Term) {
+	seen := map[*Term]bool{}
+	var walk func(n *Term)
+	walk = func(n *Term) {
+		if n == nil || n.Op == OpConst || seen[n] {
+			return
+		}
+		seen[n] = true
+		if n.Op == OpVar {
+			if _, ok := e.vars[n.Name]; !ok {
+				e.vars[n.Name] = n.W
+				e.varList = append(e.varList, n.Name)
+				fmt.Fprintf(sb, "(declare-const %s %s)\n", n.Name, sortStr(n.W))
+			}
+			return
+		}
+		walk(n.A)
+		walk(n.B)
+		walk(n.C)
+	}
+	walk(t)
+}
+
 // Define appends to sb the declarations/definitions needed so that smtRef(t) is valid.
 func (e *Emitter) Define(sb *strings.Builder, t *Term) {
 	// iterative post-order to avoid deep recursion on long chains
